@@ -368,7 +368,7 @@ def run(ck):
         for rj in rejected:
             rj["job"] = origin[rj["line"] - 1]
         return res, rejected
-    verdicts = vlib.parallel(val, groups, n=13)
+    verdicts = vlib.parallel(val, groups, n=8 if ck.thorough else 13)
     log("trace validation done in %.1fs (%d TLC processes)" % (time.time() - t0, len(groups)))
     stats = {"Decode": 0, "TlDecode": 0, "Helper": 0, "Bag": 0, "Panic": 0, "Timeout": 0, "Crash": 0, "values_judged": 0, "returned_value": 0}
     types, tltypes, sites = set(), set(), {}
